@@ -182,6 +182,7 @@ def main(mod, argv):
     ap.add_argument('--runs', type=int)
     ap.add_argument('--workers', type=int,
                     default=int(os.environ.get('VERIF_WORKERS', '0')) or None)
+    ap.add_argument('--dump-digests', help='write {run index: digest} of the batch as JSON')
     ap.add_argument('--no-selftest', action='store_true')
     ap.add_argument('--no-evidence', action='store_true')
     a = ap.parse_args(argv)
@@ -258,6 +259,10 @@ def main(mod, argv):
     # a contiguous prefix only, so that coverage is a deterministic function of N
     order = sorted(results)
     wall_runs = time.time() - t0
+
+    if a.dump_digests:
+        with open(a.dump_digests, 'w') as f:
+            json.dump({str(i): results[i]['digest'] for i in order}, f)
 
     # ---- determinism self-test
     selftest = dict(done=False)
